@@ -556,52 +556,81 @@ def _fmt_edges(edges):
 
 
 def session_loop(env, body, head):
-    """loop around ChunkDeserializer::get_next_message: repeats only after a message was returned, and every
-    iteration after the first passes an empty slice (C15 R3)"""
+    """loop around ChunkDeserializer::get_next_message: it repeats only after a message was returned, and the caller's bytes are
+    fed exactly once - every call that can execute more than once passes an empty slice (C15 R3)"""
     prog, ctx = env.prog, env.ctx
     it = ctx.interp(body.key)
     blocks = body.loops[head]
-    call = None
-    for bi in sorted(blocks):
-        t = body.blocks[bi]["term"]
-        if t["k"] == "call" and (prog.bodies.get(callee_path(t)) is not None) and prog.bodies[callee_path(t)].pretty.endswith("ChunkDeserializer::get_next_message"):
-            call = (bi, t)
-    if call is None:
+
+    def is_gnm(t):
+        return t["k"] == "call" and prog.bodies.get(callee_path(t)) is not None and prog.bodies[callee_path(t)].pretty.endswith("ChunkDeserializer::get_next_message")
+    calls = [(bi, body.blocks[bi]["term"]) for bi in body.rpo if is_gnm(body.blocks[bi]["term"])]
+    if not any(bi in blocks for bi, _ in calls) and not any(body.dominates(bi, head) for bi, _ in calls):
         return None
-    bi, t = call
-    R = ("call", (body.key, bi, len(body.blocks[bi]["stmts"])), callee_path(t))
-    argp = op_place(t["args"][1])
+    if not calls:
+        return None
+    results = {}
+    for bi, t in calls:
+        R = ("call", (body.key, bi, len(body.blocks[bi]["stmts"])), callee_path(t))
+        results[bi] = (R, project(R, (("dc", 0, "Ok"), ("f", 0, "0"))))
+
+    def is_message_option(v):
+        while isinstance(v, tuple) and v[0] == "upd":
+            v = v[1]
+        return any(v == p for _, p in results.values())
+    Sh = it.entry_states.get(head)
+    phis = [(loc, v) for loc, v in (Sh.mem.items() if Sh is not None else []) if isinstance(v, tuple) and v[0] == "phi" and v[1] == head]
+    # (b) every trip around the loop has established that a get_next_message result was Some(message)
     for s in back_edge_sources(body, head):
         S = it.edge_out.get((s, head))
         if S is None:
             continue
-        dR = S.dom(("discr", R))
-        p = project(R, (("dc", 0, "Ok"), ("f", 0, "0")))
-        dp = S.dom(("discr", p))
-        if not (dR.lo == dR.hi == 0 and dp.lo == dp.hi == 1):
+        guarded = False
+        for bi, (R, p) in results.items():
+            if bi in blocks:
+                dR, dp = S.dom(("discr", R)), S.dom(("discr", p))
+                if dR.lo == dR.hi == 0 and dp.lo == dp.hi == 1:
+                    guarded = True
+        for loc, phi in phis:
+            d = S.dom(("discr", phi))
+            if d.lo == d.hi == 1:
+                incoming = [it.edge_out[(q, head)].read(loc) for q in body.preds[head] if it.edge_out.get((q, head)) is not None]
+                if incoming and all(is_message_option(v) for v in incoming):
+                    guarded = True
+        if not guarded:
             return (False, "back edge from bb%d is not guarded by get_next_message returning Some" % s)
-    # the slice passed on re-entry is empty: find the variable whose value is the argument at the call
-    Sc, cargs = args_at(ctx, body.key, bi)
-    if Sc is None:
-        return (False, "call of get_next_message unreachable")
-    src_local = None
-    for li, l in enumerate(body.locals):
-        if l["name"] and l["t"].get("k") == "ref":
-            lv = Sc.read((it.L(li), ()))
-            if lv == cargs[1] or cargs[1] == ("ref", (("P", lv), ())):
-                src_local = li
-    if src_local is None:
-        return (False, "the slice argument of get_next_message is not held in a variable the analysis can follow")
-    for s in back_edge_sources(body, head):
-        S = it.edge_out.get((s, head))
-        if S is None:
+    # (a) the caller's bytes are fed once: a call inside the loop gets an empty slice on every trip but the first
+    for bi, t in calls:
+        Sc, cargs = args_at(ctx, body.key, bi)
+        if Sc is None:
             continue
-        v = S.read((it.L(src_local), ()))
-        ln = it.len_of_ref(S, v, body.locals[src_local]["t"])
-        d = S.dom(ln)
-        if not (d.lo == d.hi == 0):
-            return (False, "on the back edge from bb%d the slice fed to get_next_message again is not provably empty (len %s): the same bytes would be appended twice" % (s, d))
-    return (True, "repeats only after Some(message); re-entry passes an empty slice")
+        ln = it.len_of_ref(Sc, cargs[1], it.op_type(t["args"][1]))
+        d = Sc.dom(ln)
+        if d.lo == d.hi == 0:
+            continue
+        in_loop = any(bi in blk for blk in body.loops.values())
+        if not in_loop:
+            continue
+        if bi not in blocks:
+            return (False, "get_next_message is also called in another loop with a slice that is not provably empty")
+        src_local = None
+        for li, l in enumerate(body.locals):
+            if l["name"] and l["t"].get("k") == "ref":
+                lv = Sc.read((it.L(li), ()))
+                if lv == cargs[1] or cargs[1] == ("ref", (("P", lv), ())):
+                    src_local = li
+        if src_local is None:
+            return (False, "the slice argument of get_next_message is not held in a variable the analysis can follow")
+        for s in back_edge_sources(body, head):
+            S = it.edge_out.get((s, head))
+            if S is None:
+                continue
+            v = S.read((it.L(src_local), ()))
+            ln2 = it.len_of_ref(S, v, body.locals[src_local]["t"])
+            d2 = S.dom(ln2)
+            if not (d2.lo == d2.hi == 0):
+                return (False, "on the back edge from bb%d the slice fed to get_next_message again is not provably empty (len %s): the same bytes would be appended twice" % (s, d2))
+    return (True, "repeats only after Some(message); every repeated call of get_next_message passes an empty slice (%d call site(s))" % len(calls))
 
 
 # ------------------------------------------------------------------------------------------ allocation sizes
